@@ -190,7 +190,8 @@ Definition live_gids (q : list wrec) : list gid :=
 
 (* The popped records come out by increasing deadline.  Heap ties: among
    coroutines with the same deadline the order is read from the execution
-   log (first those that the log shows, in that order, then the others). *)
+   logs of this and of the later frames (first those that the logs show, in
+   that order, then the others). *)
 Definition log_gids (log : list entry) : list gid := map (fun e => fst (fst e)) log.
 
 Fixpoint dedup (l : list Z) : list Z :=
@@ -374,9 +375,12 @@ Fixpoint loop (sc : scripts) (fuel : nat) (s : st) (log : list entry)
     end
   end.
 
-Definition process (sc : scripts) (s : st) (dt : Z) (log : list entry)
+(* [fut]: the execution logs of the later frames.  The order in which
+   coroutines with the same deadline were popped may show only there (when
+   this frame is abandoned before they run); it is read from there, too. *)
+Definition process (sc : scripts) (s : st) (dt : Z) (log fut : list entry)
   : option (st * list entry * outcome) :=
-  match wake s dt log with
+  match wake s dt (log ++ fut) with
   | None => None
   | Some (s1, true) => Some (s1, log, OKeyError)
   | Some (s1, false) =>
@@ -385,7 +389,7 @@ Definition process (sc : scripts) (s : st) (dt : Z) (log : list entry)
   end.
 
 (* ---- the acceptor ------------------------------------------------------- *)
-Definition step (sc : scripts) (s : st) (o : op) (ob : obs) : option st :=
+Definition step (sc : scripts) (s : st) (o : op) (ob : obs) (fut : list entry) : option st :=
   match o, ob with
   | Start g, ObsR r => let '(s', r') := do_start s g in
                        if outcome_eqb r r' then Some s' else None
@@ -396,17 +400,21 @@ Definition step (sc : scripts) (s : st) (o : op) (ob : obs) : option st :=
       if oz_eqb v (match alookup g (pv s) with Some x => x | None => None end)
       then Some s else None
   | Process dt, ObsP log exc =>
-      match process sc s dt log with
+      match process sc s dt log fut with
       | Some (s', [], e) => if outcome_eqb exc e then Some s' else None
       | _ => None
       end
   | _, _ => None
   end.
 
+Definition future (tr : trace) : list entry :=
+  flat_map (fun x => match snd x with ObsP log _ => log | _ => [] end) tr.
+
 Fixpoint run (sc : scripts) (s : st) (tr : trace) : option st :=
   match tr with
   | [] => Some s
-  | (o, ob) :: tr => match step sc s o ob with Some s' => run sc s' tr | None => None end
+  | (o, ob) :: tr =>
+      match step sc s o ob (future tr) with Some s' => run sc s' tr | None => None end
   end.
 
 (* generators referenced from some structure of the processor *)
